@@ -20,7 +20,7 @@ pub static PROP: Prop = Prop {
         "no exact layer is demanded beyond: strictly increasing along dependencies, minimum 0, number of distinct layers = longest chain",
     ],
     fixed: None,
-    scale: None,
+    scale: Some(super::scale::c15),
 };
 
 pub struct LayerRef {
